@@ -210,6 +210,17 @@ ConeModel(op, pat, use, k) ==
   IF use = "con" THEN Model(pat, <<ConeCon(op, k)>>, <<>>, <<SumObj>>)
   ELSE Model(pat, <<ConeCon(op, k), LinCon(1, "inf", << <<0, 1>>, <<1, 1>>, <<2, 1>> >>)>>, <<>>, <<LinObj(TRUE, << <<0, 1>>, <<1, 1>>, <<2, -1>> >>)>>)
 
+\* reified comparisons of an operand with constants below, inside and above its range (conditions that are
+\* always true / always false / attained at one end are where indicator and big-M linearisations go wrong)
+CmpOps == {"lt", "le", "eq", "ge", "gt", "ne"}
+CmpExpr(op, a, c) == CASE op = "lt" -> O2(22, a, N(c)) [] op = "le" -> O2(23, a, N(c)) [] op = "eq" -> O2(24, a, N(c))
+                       [] op = "ge" -> O2(28, a, N(c)) [] op = "gt" -> O2(29, a, N(c)) [] op = "ne" -> O2(30, a, N(c))
+CmpModel(op, sh, pat, use, c) ==
+  LET B == CmpExpr(op, Arg(sh, 1), c)
+  IN CASE use = "iff"  -> Model(pat, <<>>, <<O2(73, O2(28, V(2), N(1)), B)>>, <<SumObj>>)
+       [] use = "or"   -> Model(pat, <<>>, <<O2(20, B, O2(23, V(2), N(0)))>>, <<SumObj>>)
+       [] use = "impl" -> Model(pat, <<>>, <<O3(72, O2(28, V(2), N(1)), B, N(1))>>, <<SumObj>>)
+
 VARIABLES kind, op, sh, pat, use, k
 vars == <<kind, op, sh, pat, use, k>>
 
@@ -221,6 +232,7 @@ Init ==
      \/ (kind = "dvar" /\ sh \in Shapes /\ op \in NumOps /\ use = "dvar" /\ k \in {0, 1, 2})
      \/ (kind = "compl" /\ sh \in Shapes /\ op \in {"add", "sub", "mulc", "neg", "sum3"} /\ use = "compl" /\ k = 0)
      \/ (kind = "sos" /\ op \in {"sos1", "sos2"} /\ sh = "vars" /\ use = "sos" /\ k \in {0, 1, 2})
+     \/ (kind = "cmp" /\ op \in CmpOps /\ sh \in {"vars", "affine", "mixed"} /\ use \in {"iff", "or", "impl"} /\ k \in -5..5)
      \/ (kind = "cone" /\ op \in ConeOps /\ sh = "vars" /\ use \in {"con", "con2"} /\ k \in {0, 1})
      \/ (kind = "nest" /\ op \in NestOuter /\ sh \in NestInner /\ use \in {"con_le", "con_ge", "objmin", "lcon_lt", "shared", "inor"} /\ k \in {0, 1})
 Next == UNCHANGED vars
@@ -241,5 +253,6 @@ TheModel == CASE kind = "num" -> NumModel(op, sh, pat, use, k)
               [] kind = "sos" -> SOSModel(IF op = "sos1" THEN 1 ELSE 2, pat, k)
               [] kind = "nest" -> NestModel(op, sh, pat, use, k)
               [] kind = "cone" -> ConeModel(op, pat, use, k)
+              [] kind = "cmp" -> CmpModel(op, sh, pat, use, k)
 Emit == PrintT(<<"CASE", ToJson([kind |-> kind, op |-> op, sh |-> sh, pat |-> pat, use |-> use, k |-> k, m |-> TheModel])>>)
 =============================================================================
